@@ -44,6 +44,9 @@ func NewSparseConstInt8Vector(indices []int, values []int8, n int) SparseConstIn
   if len(indices) != len(values) {
     panic("invalid number of indices")
   }
+  // sort and filter copies, the arguments are left untouched
+  indices = append([]int{}, indices...)
+  values = append([]int8{}, values...)
   sort.Sort(sortIntConstInt8{indices, values})
   r := nilSparseConstInt8Vector(n)
   r.indices = indices[0:0]
